@@ -172,3 +172,34 @@ def run(chk, repo, tier):
              for s in repo.mod(GD).tree.body)
     chk.ob('R07.2', ok, GD, repo.mod(GD).tree.body[0], key='Chem-import',
            what='`Chem` is rdkit.Chem', qualname='<module>')
+    # the molecule named by self.name is the one fixed at construction
+    init = methods['__init__']
+    from .. import reviewed
+    reviewed.check(chk, 'R07.2', repo, GD, est + '.__init__',
+                   'the estimator constructor (self.name = lib.name, terms, '
+                   'range) is unchanged in normal form from its reviewed '
+                   'reference')
+    libp = params(init)[1]
+    keeps = [ast.unparse(n) for n in ast.walk(init)
+             if isinstance(n, ast.Assign) and isinstance(n.value, ast.Name)
+             and n.value.id == libp
+             and any(isinstance(t, ast.Attribute) for t in n.targets)]
+    chk.ob('R07.2', not keeps, GD, init, key='name-fixed-at-construction',
+           what='the estimate copies the molecule name at construction; it '
+                'keeps no live reference to the library',
+           found='; '.join(keeps))
+    cls = repo.cls(GD, est)
+    props = [s_.name for s_ in cls.body if isinstance(s_, ast.FunctionDef)
+             and s_.decorator_list]
+    chk.ob('R07.2', not props, GD, cls, key='no-computed-attributes',
+           qualname=est, what='the estimator has no property/decorated '
+                              'accessor (name, correlations are plain '
+                              'attributes set once)', found=str(props))
+    stores = [n.attr for f_ in cls.body if isinstance(f_, ast.FunctionDef)
+              and f_.name != '__init__' for n in ast.walk(f_)
+              if isinstance(n, ast.Attribute) and isinstance(
+                  n.ctx, (ast.Store, ast.Del)) and dotted(n.value) == 'self']
+    chk.ob('R07.2', not stores, GD, cls, key='no-late-stores', qualname=est,
+           what='no estimator method other than the constructor stores on '
+                'the estimate', found=str(stores))
+
